@@ -491,7 +491,51 @@ func runRound(e *hk.Env, seed uint64, n int, rnd *hk.Rng) {
 	}
 	probe([]byte{11, 1, 2, 3})
 	probe(net.ParseIP("2001:db8::1"))
-	e.Case(append([]string{"E"}, line...)...)
+	// repeated lookup of one address across exactly N updates on the quiescent filter (no other lookup in between)
+	tag := "E"
+	{
+		nUpd := []int{1, 2, 3}[rnd.Intn(3)]
+		switch {
+		case n == 7: // once per run: ~10 s for the driver (the specification's Remove is linear in the live set)
+			nUpd = 65536
+		case n%10 == 3:
+			nUpd = []int{255, 256, 257, 1024}[rnd.Intn(4)]
+		}
+		a := &rng{ip: [4]byte{10, 251, byte(rnd.Intn(256)), 9}, ones: 24 + rnd.Intn(9)}
+		x := &rng{ip: [4]byte{10, 252, byte(rnd.Intn(256)), 9}, ones: 24 + rnd.Intn(9)}
+		pa := u32b(a.first())
+		if rnd.Chance(40) {
+			pa = net.IP(pa).To16()
+		}
+		call := func(add bool, r *rng, times int) {
+			o := wop{add: add, r: r, ip: u32b(r.first()), mask: net.CIDRMask(r.ones, 32)}
+			for i := 0; i < times; i++ {
+				rd.apply(&o)
+				if o.res != 0 {
+					break
+				}
+			}
+			if times == 1 || o.res != 0 {
+				line = append(line, o.token())
+			} else {
+				line = append(line, fmt.Sprintf("*%d*%s", times, o.token()))
+				tag = "L"
+			}
+		}
+		present := rnd.Bool()
+		if present {
+			call(true, a, 1)
+		}
+		probe(pa)
+		before := rnd.Intn(nUpd)
+		call(false, x, before) // removals of a range that is not there: successful updates
+		call(!present, a, 1)
+		call(false, x, nUpd-1-before)
+		probe(pa)
+		probe(pa)
+		e.Count(fmt.Sprintf("post_quiescence_repeated_lookup_across_%d_updates", nUpd), 1)
+	}
+	e.Case(append([]string{tag}, line...)...)
 
 	e.Count("rounds", 1)
 	if int(rd.done.Load()) > 256 {
